@@ -239,7 +239,7 @@ class Worker(object):
 def _aname(a):
     if a is None:
         return None
-    return a._identification.get("action_type") + str(a._task_level.as_list())
+    return world.action_type_of(a) + str(world.action_level(a))
 
 
 # ---------------------------------------------------------------------------
@@ -397,7 +397,7 @@ def run_threads(harness):
                         def inner(w=w, bi=bi):
                             # base action: the eliot:remote_task action created by preserve_context
                             w.stack[0] = current_action()
-                            if w.stack[0] is None or w.stack[0]._identification["action_type"] != "eliot:remote_task":
+                            if w.stack[0] is None or world.action_type_of(w.stack[0]) != "eliot:remote_task":
                                 problems.append(("preserve_context-worker-not-in-remote-task", {"worker": w.name}))
                             w.run_sync(BODIES[bi], lambda: s.point(("op", w.name)))
 
